@@ -299,8 +299,9 @@ package quickfix
 //@   ensures @disconnected s.messageOut == old(s.messageOut) && s.State == old(s.State)
 //@   ensures @nowire s.messageOut == nil ==> sent(s.messageOut) == old(sent(s.messageOut))
 //@   ensures @bound sent(s.messageOut) <= old(sent(s.messageOut)) + old(len(s.toSend))
+//@   ensures @kept len(s.toSend) == old(len(s.toSend)) - (sent(s.messageOut) - old(sent(s.messageOut)))
 //@   modifies s.toSend, heap Gh.chan.sent
-//@   loop 1 invariant sent(s.messageOut) <= old(sent(s.messageOut)) + $i + 1 && (s.messageOut == nil ==> sent(s.messageOut) == old(sent(s.messageOut)))
+//@   loop 1 invariant sent(s.messageOut) == old(sent(s.messageOut)) + $i + 1 && s.toSend == old(s.toSend) && (s.messageOut == nil ==> sent(s.messageOut) == old(sent(s.messageOut)))
 //@   loop 1 modifies heap Gh.chan.sent
 //@   loop 1 decreases len(s.toSend) - $i
 
